@@ -94,7 +94,17 @@ def execPair (op : String) (ts : List String) : Option String :=
 def pState : P (Except String (Crystal Float)) := do
   let kindS ← tok
   let shape? ← pShape
-  let gname ← tok
+  let gtok ← tok
+  -- modifiers of the group token: `p1+` (the single site may be repeated), `p1@Hexagonal` (family of label and cell)
+  let multi := gtok.endsWith "+"
+  let gtok1 := if multi then (gtok.dropRight 1) else gtok
+  let gname := (gtok1.splitOn "@").headD ""
+  let famS? : Option String := match gtok1.splitOn "@" with | [_, f] => some f | _ => none
+  let fam? : Option (Option Family) := match famS? with
+    | none => some none
+    | some "Monoclinic" => some (some .Monoclinic) | some "Orthorhombic" => some (some .Orthorhombic)
+    | some "Hexagonal" => some (some .Hexagonal) | some "Tetragonal" => some (some .Tetragonal)
+    | some _ => none
   let entry? := Generated.tables.find? (fun e => e.variant == gname.toList)
   let rest : P (Option (Float × Float × Float × List (Float × Float × Float))) := do
     match (← get) with
@@ -106,9 +116,10 @@ def pState : P (Except String (Crystal Float)) := do
   match shape? with
   | none => let _ ← rest; pure (.error "shape")
   | some shape =>
-    match entry? with
-    | none => pure (.error "group")
-    | some e =>
+    match entry?, fam? with
+    | _, none => let _ ← rest; pure (.error "family")
+    | none, _ => pure (.error "group")
+    | some e, some famOv =>
       let kind? : Option Kind := match kindS, shape with
         | "hard", .line _ => some .hard
         | "hard", .mol _ => some .hard
@@ -124,6 +135,13 @@ def pState : P (Except String (Crystal Float)) := do
         match (← rest) with
         | none => pure (.ok st0)
         | some (l, r, a, sites) =>
+          let st0 : Crystal Float := match famOv with
+            | none => st0
+            | some f => { st0 with family := f, cell := { st0.cell with family := f } }
+          let st0 : Crystal Float :=
+            if multi && st0.sites.length == 1 && sites.length ≥ 2 then
+              { st0 with sites := List.replicate sites.length (st0.sites.headD (Site.fromWyckoff [])) }
+            else st0
           if sites.length != st0.sites.length then pure (.error "inject")
           else if !(l.isFinite && r.isFinite && a.isFinite &&
               sites.all fun (x, y, t) => x.isFinite && y.isFinite && t.isFinite) then pure (.error "inject")
